@@ -199,7 +199,7 @@ def may_match(f, ev):
                 return False
         elif key == "until":
             u = _intlike(val)
-            if u is not None and u and ev["created_at"] > u:
+            if u is not None and ev["created_at"] > u:
                 return False
         elif key.startswith("#") and len(key) == 2:
             if isinstance(val, list):
